@@ -472,6 +472,8 @@ func runC18(c *fw.Check) {
 	nTypes, nConsts := 0, 0
 	carriers := c18carriers()
 	usedCarriers := map[string]bool{}
+	slotTable := c18slotTable()
+	var walkJobs []c18job
 	missingTemplate := []string{}
 	noPosition := []string{}
 	for _, et := range EnumTable {
@@ -535,8 +537,20 @@ func runC18(c *fw.Check) {
 			}
 			c18roundtrip(c, et, fam, byVal[v], v)
 			c18runCarriers(c, et, byVal[v], v, carriers, usedCarriers)
+			walkJobs = append(walkJobs, c18walkJobs(et, byVal[v], v, slotTable)...)
 		}
 	}
+	fw.ParallelFor(len(walkJobs), func(i int) { c18runWalkJob(c, walkJobs[i]) })
+	var wk []string
+	for en, ks := range slotTable {
+		for k := range ks {
+			wk = append(wk, en+"@"+k)
+		}
+	}
+	sort.Strings(wk)
+	c.Extra["generic_carriers_in_all_kinds_module"] = wk
+	c.Extra["generic_carrier_roundtrips"] = len(walkJobs)
+	c.Extra["generic_carrier_base_module_variants"] = c18baseVariants
 	var ucs []string
 	for k := range usedCarriers {
 		ucs = append(ucs, k)
@@ -656,6 +670,11 @@ func replayC18(c *fw.Check, path string) {
 		if strings.HasPrefix(cs.Type, et.Name+"@") {
 			fmt.Printf("replay carrier %s %s:\n%s\n", cs.Type, cs.Const, cs.Text)
 			c18runCarriers(c, et, cs.Const, cs.Value, c18carriers(), map[string]bool{})
+			for _, j := range c18walkJobs(et, cs.Const, cs.Value, c18slotTable()) {
+				if strings.HasPrefix(cs.Type, et.Name+"@"+j.key+"#") {
+					c18runWalkJob(c, j)
+				}
+			}
 		}
 		if et.Name != cs.Type {
 			continue
